@@ -195,8 +195,8 @@ func buildCorpus() []corpusEntry {
 	J("deep objects 300", strings.Repeat(`{"a":`, 300)+`null`+strings.Repeat("}", 300), nestType(3, 300, str), nestType(4, 300, str))
 	J("quadratic: deep list 3000", strings.Repeat("[", 3000)+`"x"`+strings.Repeat("]", 3000), nestType(0, 3000, str))
 	J("quadratic: deep dynamic wrappers 600", strings.Repeat(`{"value":`, 600)+`null`+strings.Repeat(`,"type":"dynamic"}`, 600), dyn)
-	T("quadratic: deep list descriptor 6000", strings.Repeat(`["list",`, 6000)+`"string"`+strings.Repeat(`]`, 6000))
-	J("quadratic: deep type inside a wrapper", `{"value":null,"type":`+strings.Repeat(`["list",`, 4000)+`"string"`+strings.Repeat(`]`, 4000)+`}`, dyn)
+	T("quadratic: deep list descriptor 3000", strings.Repeat(`["list",`, 3000)+`"string"`+strings.Repeat(`]`, 3000))
+	J("quadratic: deep type inside a wrapper", `{"value":null,"type":`+strings.Repeat(`["list",`, 2500)+`"string"`+strings.Repeat(`]`, 2500)+`}`, dyn)
 
 	// ---------------- MessagePack ----------------
 	nanD := hx("cb 7ff8000000000001")
